@@ -94,4 +94,5 @@ def check(repo: Repo, rep: Report) -> None:
     rep.ob("A2-final-value", cls, "_on_error_core inherited from Subject (error delivers no value)", cls.child("_on_error_core") is None,
            "AsyncSubject overrides _on_error_core (not analysed): the error path may deliver a value")
     SC.rule_dispose(rep, cls)
+    SC.rule_subscribe_atomic(rep, cls)
     SC.rule_exception_identity(rep, repo.fn(A, "AsyncSubject._subscribe_core"))
